@@ -514,12 +514,25 @@ fn compare_chain(r: &mut Runner, z: &Zone, p: &ZParams, srv: &Server) {
 struct Session {
     srv: Server,
     v: DnssecDnsHandle<CatHandle>,
+    /// validators CONFIGURED with iteration limits that the zone's iteration count exceeds (only for zones
+    /// with iterations >= 1): soft limit just below the zone's count (hard above it), hard limit just below it.
+    /// The limits are configuration of `DnssecDnsHandle` (builder `nsec3_iteration_limits`) and must reach the
+    /// decision procedure through `send()`.
+    v_soft: Option<DnssecDnsHandle<CatHandle>>,
+    v_hard: Option<DnssecDnsHandle<CatHandle>>,
 }
 
 fn new_session(z: &Zone, p: &ZParams) -> Result<Session, String> {
     let srv = build_server(z, p)?;
-    let v = DnssecDnsHandle::with_trust_anchor(CatHandle { cat: srv.cat.clone() }, srv.anchors.clone());
-    Ok(Session { srv, v })
+    let mk = || DnssecDnsHandle::with_trust_anchor(CatHandle { cat: srv.cat.clone() }, srv.anchors.clone());
+    let v = mk();
+    let it = p.hp.iterations;
+    let (v_soft, v_hard) = if it >= 1 {
+        (Some(mk().nsec3_iteration_limits(Some(it - 1), Some(it.saturating_add(100)))), Some(mk().nsec3_iteration_limits(Some(0), Some(it - 1))))
+    } else {
+        (None, None)
+    };
+    Ok(Session { srv, v, v_soft, v_hard })
 }
 
 fn e2e_case(z: &Zone, p: &ZParams, q: &Name, t: u16) -> Value {
@@ -565,6 +578,25 @@ fn run_query(r: &mut Runner, rt: &tokio::runtime::Runtime, ses: &Session, z: &Zo
     if !so.nsec3.is_empty() {
         r.rep.nontrivial(fnv64(&h));
         r.rep.count("e2e/responses_with_nsec3");
+    }
+    // 2a. configured iteration limits (statement: above the soft limit never Secure, above the hard limit Bogus)
+    if !so.nsec3.is_empty() && matches!(so.claim, RespClaim::Denial(_)) {
+        if let Some(vs) = &ses.v_soft {
+            let o = validate(rt, vs, q, t);
+            r.rep.count(&format!("e2e/limits/soft-exceeded/{}", o.tag()));
+            if o == VOut::AcceptedSecure {
+                r.report("e2e-soft-limit-secure", &format!("iterations={}|soft={}|configured-handle", p.hp.iterations, p.hp.iterations - 1), || e2e_case(z, p, q, t),
+                    json!("not Secure: the zone's NSEC3 iteration count exceeds the soft limit configured on the DnssecDnsHandle"), json!({"validator": format!("{o:?}")}));
+            }
+        }
+        if let Some(vh) = &ses.v_hard {
+            let o = validate(rt, vh, q, t);
+            r.rep.count(&format!("e2e/limits/hard-exceeded/{}", o.tag()));
+            if matches!(o, VOut::AcceptedSecure | VOut::AcceptedWith(Proof::Insecure) | VOut::Rejected(Proof::Insecure)) {
+                r.report("e2e-hard-limit-not-bogus", &format!("iterations={}|hard={}|configured-handle|{}", p.hp.iterations, p.hp.iterations - 1, o.tag()), || e2e_case(z, p, q, t),
+                    json!("Bogus: the zone's NSEC3 iteration count exceeds the hard limit configured on the DnssecDnsHandle"), json!({"validator": format!("{o:?}")}));
+            }
+        }
     }
     // 2. what the validator says
     let vo = validate(rt, &ses.v, q, t);
